@@ -6,6 +6,7 @@ import Driver.Dict
 import Driver.BlockAlloc
 import Driver.EventQueue
 import Driver.Dispatch
+import Driver.Archive
 import Driver.Target
 
 def main (args : List String) : IO UInt32 := do
@@ -18,5 +19,6 @@ def main (args : List String) : IO UInt32 := do
   | ["blockalloc"] => Driver.BlockAlloc.main; return 0
   | ["eventqueue"] => Driver.EventQueue.main; return 0
   | ["dispatch"] => Driver.Dispatch.main; return 0
+  | ["archive"] => Driver.Archive.main; return 0
   | ["target"] => Driver.Target.main; return 0
   | _ => IO.eprintln "usage: driver <area>"; return 2
